@@ -284,6 +284,24 @@ func (tb *termBuilder) build(v ssa.Value, d int) *Term {
 	case *ssa.Convert:
 		return tb.of(x.X, d+1)
 	case *ssa.Extract:
+		// a result of a private helper on which all its success returns agree (g, q := generatorAndOrder(ec)):
+		// the helper's own term with its parameters replaced by this call's arguments
+		if c, ok := x.Tuple.(*ssa.Call); ok && d < 30 {
+			if r := helperResult(c, x.Index); r != nil {
+				if h := Callee(c); h != nil {
+					sub := map[*ssa.Parameter]*Term{}
+					for i, p := range h.Params {
+						if i < len(c.Call.Args) {
+							sub[p] = tb.of(c.Call.Args[i], d+1)
+						}
+					}
+					inner := (&termBuilder{memo: map[memoKey]*Term{}}).of(r, d+1)
+					if !inner.HasOpaque() {
+						return inner.Subst(sub)
+					}
+				}
+			}
+		}
 		return &Term{Op: "extract", Name: fmt.Sprint(x.Index), Args: []*Term{tb.of(x.Tuple, d+1)}}
 	case *ssa.BinOp:
 		return &Term{Op: "bin" + x.Op.String(), Args: []*Term{tb.of(x.X, d+1), tb.of(x.Y, d+1)}}
